@@ -107,7 +107,9 @@ func checkC20(p *Prog, r *Result, tier string) {
 	r.Rule("C20.R2", "index entries are immutable once published: the value / object-id fields of an index entry are written only on entries allocated or decoded in the current call tree", 1)
 	r.Rule("C20.R3", "object ids are never reused at run time: outside the decoder the id counter only changes by +1, in the function that registers the id in both membership maps", 1)
 	r.Rule("C20.R4", "each match at most once: the union dedups by object id (the append of a left-hand entry is guarded by a miss in the marking map keyed by object id)", 1)
-	r.NotDecided = []string{"that the decoder restores the id counter past the maximum (arithmetic over decoded keys)", "the values of the entries themselves (C02)"}
+	r.Rule("C20.R5", "ids are not reused after reopening: in the decoder of the object index the store counter = counter + 1 that follows the scan of the decoded ids dominates every literal `return nil` (the counter passes the largest id whatever the ids are)", 1)
+	r.Rule("C20.R6", "the object index of a schema value in use is never replaced: outside constructors and decoders the index member of a schema is assigned only under a test that it is nil, so the id counter and the id-to-uuid map a snapshot refers to are not started again", 1)
+	r.NotDecided = []string{"that the scan of the decoder finds the maximum (arithmetic over decoded keys)", "the values of the entries themselves (C02)"}
 	c := computeClosures(p)
 	var jobs []exploreJob
 	for _, f := range searchRoots(p) {
@@ -123,6 +125,8 @@ func checkC20(p *Prog, r *Result, tier string) {
 	exploreAll(p, c, all, EffSet{}, r, aliasListener(p, r, "", "", "C20.R2"), nil)
 	checkIDCounter(p, r, "C20.R3")
 	checkOrDedup(p, r, "C20.R4")
+	checkDecoderCounter(p, r, "C20.R5")
+	checkFieldNilGuard(p, r, "C20.R6", p.A.SchObjectIndex, "ObjectIndex", "the object index of an existing schema value is replaced without a preceding `ObjectIndex == nil` test: the id counter starts again at 0 and ids are handed out a second time, so a search snapshot taken before resolves an id to a different object (or to an object that was deleted)")
 }
 
 func init() { register("C20", checkC20) }
@@ -146,7 +150,7 @@ func checkIDCounter(p *Prog, r *Result, rule string) {
 				if _, isAlloc := base.(*ssa.Alloc); isAlloc {
 					continue
 				}
-				isDecoder := fn.Name() == "UnmarshalJSON"
+				isDecoder := decoderOf(fn) != nil
 				n++
 				inc := false
 				if bo, ok := st.Val.(*ssa.BinOp); ok && bo.Op == token.ADD {
@@ -730,17 +734,7 @@ func checkTypeGuard(p *Prog, c *Closures, r *Result, rule string) {
 func checkAndOrPlumbing(p *Prog, c *Closures, r *Result, rule string) {
 	a := p.A
 	srch := p.FuncByName("DB.search")
-	argOfSearchCall := func(fn *ssa.Function) (ssa.Value, bool) {
-		for _, b := range fn.Blocks {
-			for _, in := range b.Instrs {
-				if call, ok := in.(*ssa.Call); ok && call.Call.StaticCallee() == srch {
-					args := call.Call.Args
-					return args[len(args)-1], true
-				}
-			}
-		}
-		return nil, false
-	}
+	argOfSearchCall := func(fn *ssa.Function) (ssa.Value, bool) { return dispatcherConstraint(p, fn, srch) }
 	if and := p.FuncByName("Search.And"); and != nil && srch != nil {
 		v, ok := argOfSearchCall(and)
 		_, f, _ := loadedField(v)
@@ -944,4 +938,56 @@ func checkRegexArm(p *Prog, r *Result, rule string) {
 	if n == 0 {
 		r.Report(rule, "-", "pattern search of the field index", Violated, "no field-index function evaluates a pattern with MatchString", "", nil, true)
 	}
+}
+
+// forwardsToDispatcher: g does nothing but call the dispatcher, handing its own parameter on as the constraint; the
+// result is the position of that parameter in a call of g (receiver included), or -1.
+func forwardsToDispatcher(p *Prog, g, srch *ssa.Function) int {
+	if g == nil || g.Blocks == nil || !inSod(p, g) || len(g.Blocks) != 1 {
+		return -1
+	}
+	pos := -1
+	for _, in := range g.Blocks[0].Instrs {
+		switch u := in.(type) {
+		case *ssa.Call:
+			if u.Call.StaticCallee() != srch {
+				return -1
+			}
+			par, ok := u.Call.Args[len(u.Call.Args)-1].(*ssa.Parameter)
+			if !ok {
+				return -1
+			}
+			for i, q := range g.Params {
+				if q == par {
+					pos = i
+				}
+			}
+		case *ssa.Return, *ssa.UnOp, *ssa.FieldAddr, *ssa.DebugRef:
+		default:
+			return -1
+		}
+	}
+	return pos
+}
+
+// dispatcherConstraint: the constraint argument of fn's call of the search dispatcher, made directly or through a
+// forwarding helper.
+func dispatcherConstraint(p *Prog, fn, srch *ssa.Function) (ssa.Value, bool) {
+	for _, b := range fn.Blocks {
+		for _, in := range b.Instrs {
+			call, ok := in.(*ssa.Call)
+			if !ok {
+				continue
+			}
+			g := call.Call.StaticCallee()
+			if g == srch {
+				args := call.Call.Args
+				return args[len(args)-1], true
+			}
+			if k := forwardsToDispatcher(p, g, srch); k >= 0 && k < len(call.Call.Args) {
+				return call.Call.Args[k], true
+			}
+		}
+	}
+	return nil, false
 }
